@@ -22,7 +22,8 @@ def make_plan(seed: int, tier: str, opts: dict) -> dict:
         eps.append(ep)
     for ep in eps:
         ep["until_active"] = True
-    return dict(spec=spec, seed=seed, episodes=eps, clock="wall" if wall else "sim",
+    hot = r.choice([0.0, 0.0, 0.15, 0.4])  # pre-emption concentrated on lines touching shared lifecycle/queue fields
+    return dict(hot_rate=hot, spec=spec, seed=seed, episodes=eps, clock="wall" if wall else "sim",
                 line_rate=r.choice([0.0, 0.0025, 0.01]) if tier == "thorough" else 0.0)
 
 
